@@ -229,6 +229,12 @@ func runC14(c *Ctx) {
 		c.Check("C14.G", "Write:discard-reports-full-length", p, wr.Pos(), okLen, "discarded bytes are reported as written (len(bs), nil): the reverse proxy does not abort with a short write", "the discarding arm does not return len(bs)")
 	}
 
+	c.Rule("C14.M", "rendered pages and spliced prefixes live in call-owned buffers", 2)
+	rulePooledMemory(c, p, "C14.M", "agent/banner", "agent/websockets")
+	ruleSharedScratch(c, p, "C14.M", "agent/banner", "agent/websockets", "agent")
+	c.Rule("C14.P", "injection does not reconfigure the backend-facing proxy beyond ModifyResponse", 3)
+	ruleReverseProxyFields(c, p, "C14.P")
+
 	// ---- C14.X
 	{
 		sub := NewCtx("tmp", c.Progs)
